@@ -187,6 +187,35 @@ def case : P String := do
     match graphFromFiles ef vf nE nV with
     | .error e => pure (loadErrOut e)
     | .ok g => pure (graphOut g)
+  | "loadcap" => do
+    -- the same with the allocation limit of the adjacency tables (a declared count beyond it panics)
+    let _descr ← next
+    let cap ← nat
+    let nE ← optOf nat
+    let nV ← optOf nat
+    let ef ← fileP edgeRow
+    let vf ← fileP vertexRow
+    endOfLine
+    match graphFromFilesAlloc cap ef vf nE nV with
+    | .error e => pure (loadErrOut e)
+    | .ok g => pure (graphOut g)
+  | "lookup" => do
+    -- the consumers of a per-edge table: kind, the loaded table, the query's road classes, the probes
+    let kind ← next
+    let table ← optOf (listOf nat)
+    let allowed ← optOf (listOf nat)
+    let probes ← listOf nat
+    endOfLine
+    let show1 (r : Except LookupErr String) : String :=
+      match r with
+      | .ok s => "s " ++ s
+      | .error (.missing e) => "m " ++ toString e
+    let one (e : Nat) : String :=
+      match kind with
+      | "grade" => show1 ((getGrade table 0 e).map toString)
+      | "class" => show1 ((roadClassValid (table.getD []) allowed e).map (fun b => if b then "1" else "0"))
+      | _ => show1 ((tableGet (table.getD []) e).map toString)
+    pure (joinSp (probes.map one))
   | "table" => do
     -- per-edge table: rows of raw 64-bit payloads (or undecodable), and the edge ids to look up
     let _descr ← next
